@@ -32,7 +32,7 @@ def text_content(small=False):
     base = GC.words_text(max_words=3 if small else 7)
     balanced = st.sampled_from(["ab" + GC.WIDE[0] + GC.ZERO[0] + "cd", (GC.WIDE[1] + GC.ZERO[1]) * 5, "x" + GC.WIDE[2] + GC.ZERO[0] + GC.WIDE[3] + GC.ZERO[2] + "yz w"])
     edge = st.lists(st.sampled_from(GC.wide_edge()), min_size=1, max_size=6).map("".join)
-    return st.one_of(base, base, GC.mixed_text(10, newlines=True), balanced, edge, st.sampled_from(["", "x", GC.WIDE[0], "a" * 30, GC.WIDE[1] * 12, "a b c d e f g h i j"]))
+    return st.one_of(base, base, GC.mixed_text(10, newlines=True), balanced, edge, st.sampled_from(["", "x", GC.WIDE[0], "a" * 30, GC.WIDE[1] * 12, "a b c d e f g h i j", "ab\u2028cd ef", "x\x85y z", "p\x1cq", "one\xa0two three"]))
 
 
 def title_content():
